@@ -191,6 +191,7 @@ func ruleC06Extra(prog *Program, rep *Report) {
 	ruleRecoverFrames(prog, rep, []string{"oj", "sen", "gen", "jp", "asm", "alt", "pretty"}, "E-recover")
 	ruleUncheckedAssert(prog, rep)
 	ruleSiblingGuard(prog, rep, []string{"jp"})
+	ruleReaderLoops(prog, rep) // a read loop that does not re-extend its buffer or does not stop on an error never ends
 	// plan construction runs outside Execute's recover frame; the path and script parser indexes its input
 	build := reachableFuncs(prog, "asm", "NewPlan")
 	ruleConstIdx(prog, rep, 20, func(rel, fn string) bool {
